@@ -333,7 +333,7 @@ PROPS["C17"] = dict(
           "Non-trivial: at least two state-changing steps (registrations, erasures or successful dispatches). Distinct: distinct run digests."),
     probes=["dispatch_to_registered_tuple", "dispatch_to_unregistered_tuple", "only_other_permutation_registered", "registered_handler_erased", "handler_overwritten",
             "three_argument_dispatch", "symmetric_swap_taken", "static_dispatch_on_error", "static_dispatch_two_hierarchies", "visit_dispatched", "const_visit_dispatched", "catch_all_taken",
-            "derived_visited_by_visitor_of_base_only", "cyclic_visit_dispatched", "registration_failed_with_bad_alloc", "dispatch_after_failed_registration", "handler_threw", "dispatcher_copied", "visitor_of_the_other_constness"],
+            "derived_visited_by_visitor_of_base_only", "cyclic_visit_dispatched", "registration_failed_with_bad_alloc", "dispatch_after_failed_registration", "handler_threw", "dispatcher_copied", "visitor_of_the_other_constness", "visitor_with_two_base_visitor_subobjects"],
     components=dict(real=["include/xtl/xmultimethods.hpp (static_dispatcher, basic_dispatcher, basic_fast_dispatcher, functor_dispatcher, casters)", "include/xtl/xvisitor.hpp (acyclic and cyclic visitors, catch-all policies)"],
                     stub=["recording handlers, executors and visitors", "model map from type tuple to handler id", "class hierarchy of four concrete classes", "replaced global operator new/delete (allocation failure inside a registration)"]),
     assumptions=["every class of the hierarchy carries its own XTL_IMPLEMENT_INDEXABLE_CLASS / XTL_DEFINE_VISITABLE", "static_dispatcher type lists are ordered most-derived first",
